@@ -306,6 +306,7 @@ class MainLoop(LoopSpec):
             n = I.fresh("int", "n_replies")
             I.assume(n.e >= 0)
             fr.locals[nm] = SymMap(I, "reply_roles", n.e, lambda i: I.opaque("k"), lambda i: I.opaque("reply"))
+            g["reply_map"] = fr.locals[nm]
         g["exit"] = "main"
         g["acc_names"] = (self.lists, self.dicts)
 
@@ -517,7 +518,14 @@ class NegAcceptorTask(Task):
                 keyv = I.call_value(results.key, [probe], {}) if results.key is not None else None
                 sorted_ok = keyv is pid
             I.ob(f"{P}/results-are-all-per-context-results-sorted-by-context-id", sorted_ok)
-            I.ob(f"{P}/replies-are-the-collected-role-replies", isinstance(replies, SortedView) or replies == [])
+            # ALL the replies collected by the loop are returned (in some order): the returned sequence is a reordering of the
+            # values of the loop's reply map - same length, nothing filtered out
+            rm = g.get("reply_map")
+            all_of_them = isinstance(replies, SortedView) and isinstance(replies.seq, SymSeq) and rm is not None \
+                and replies.seq.name == f"{rm.name}.values" and getattr(replies.seq, "filter_of", None) is None \
+                and I.valid(replies.seq.length == rm.n)
+            I.ob(f"{P}/replies-are-the-collected-role-replies", all_of_them or (rm is None and replies == []),
+                 detail=f"returned {getattr(getattr(replies, 'seq', None), 'name', replies)!r}")
 
 
 # ---------------------------------------------------------------------------------------------
@@ -921,24 +929,41 @@ class CompositionTask(FiniteTask):
         I = Interp(repo, cfg)
         cls = repo.cls(f"{PR}:PresentationContext")
 
+        uids = {}
+
+        def uid_of(ab):
+            # one object per UID value, so that dicts keyed by abstract syntax behave as they do for equal strings
+            if ab not in uids:
+                uids[ab] = UIDv(z3.IntVal(ab))
+            return uids[ab]
+
         def cx(cid, ab, ts, scu=None, scp=None, result=None):
             o = Obj(cls)
-            o.fields.update(_context_id=cid, _abstract_syntax=UIDv(z3.IntVal(ab)) if ab is not None else None,
+            o.fields.update(_context_id=cid, _abstract_syntax=uid_of(ab) if ab is not None else None,
                             _transfer_syntax=[UIDv(z3.IntVal(t)) for t in ts], result=result, _scu_role=scu, _scp_role=scp,
                             _as_scp=None, _as_scu=None)
             return o
         bad = {"ids": [], "ts": [], "roles": [], "once": []}
         n = 0
         ts_cases = [([1], [1]), ([1, 2], [2, 1]), ([1], [2]), ([1, 2, 3], [3, 1])]
-        for prop in [None] + R.RQ_PROPOSALS[1:]:
-            for ac_set in R.AC_SETTINGS:
-                for supported in (True, False):
-                    for rq_ts, ac_ts in ts_cases:
+        # the second proposed context: another SOP class, or the SAME SOP class again (role items are per SOP class, not per
+        # context) with transfer syntaxes the acceptor supports / does not support, before or after the first one
+        second_cases = [("other", 11, None, 3), ("same-supported", 10, None, 3), ("same-unsupported", 10, [9], 3), ("same-unsupported-first", 10, [9], -1)]
+        for prop, ac_set, supported, (rq_ts, ac_ts), (sname, ab2, ts2, id2) in [
+                (p_, a_, s_, t_, c_) for p_ in [None] + R.RQ_PROPOSALS[1:] for a_ in R.AC_SETTINGS for s_ in (True, False)
+                for t_ in ts_cases for c_ in second_cases]:
+            if True:
+                if True:
+                    if True:
                         n += 1
                         I.begin_path([])
+                        uids.clear()
                         # requestor's requested context carries its own proposed roles (ACSE applies them, see AcseRolesTask)
                         rq_scu, rq_scp = (prop if prop else (None, None))
-                        proposed = [cx(1, 10, rq_ts), cx(3, 11, rq_ts)]
+                        first_id, second_id = (1, 3) if id2 == 3 else (3, 1)
+                        proposed = [cx(first_id, 10, rq_ts), cx(second_id, ab2, ts2 or rq_ts)]
+                        if id2 == -1:
+                            proposed.reverse()
                         sup = [cx(None, 10 if supported else 12, ac_ts, *ac_set)]
                         roles = {proposed[0].fields["_abstract_syntax"]: prop} if prop else {}
                         # dict keys must be the same abstract-syntax VALUE: use eq-based lookup through a SymMap-free dict
@@ -952,8 +977,10 @@ class CompositionTask(FiniteTask):
                         wire = [cx(c.fields["_context_id"], None, [_ident(t) for t in c.fields["_transfer_syntax"][:1]], result=c.fields["result"])
                                 for c in results]
                         reply_map = {I.getattr(r, "sop_class_uid"): (I.getattr(r, "scu_role"), I.getattr(r, "scp_role")) for r in replies}
-                        requested = [cx(1, 10, rq_ts, (rq_scu or False) if prop else None, (rq_scp or False) if prop else None),
-                                     cx(3, 11, rq_ts)]
+                        rq_roles_kw = ((rq_scu or False) if prop else None, (rq_scp or False) if prop else None)
+                        requested = [cx(first_id, 10, rq_ts, *rq_roles_kw),
+                                     cx(second_id, ab2, ts2 or rq_ts, *(rq_roles_kw if ab2 == 10 else (None, None)))]
+                        requested.sort(key=lambda c: c.fields["_context_id"])
                         k2, v2 = I.run_function(repo.func(NEG_RQ), [requested, wire, _EqDict(I, reply_map)])
                         if k2 != "return":
                             bad["once"].append((prop, ac_set, "requestor raised"))
